@@ -40,9 +40,21 @@ func suiteC02(s *Suite, rng *Rng, tier string) {
 	smallLeft := 2
 	for round := 0; round < rounds; round++ {
 		n := 1 + rng.Intn(4)
+		// every third round: only disclosure proofs with a non-revocation part (one, then two): their binding to the session
+		// must not hinge on other proofs of the list
+		allNonrev := round%3 == 1
+		if allNonrev {
+			n = 1 + (round/3)%2
+		}
 		secret := newSecret(rng)
 		mk := func() ([]builderSpec, bool) {
 			specs := make([]builderSpec, n)
+			if allNonrev {
+				for i := range specs {
+					specs[i] = builderSpec{kind: "disclose", key: keys[2], secret: secret, nattr: 2 + rng.Intn(3), nonrev: true}
+				}
+				return specs, rng.Bool()
+			}
 			for i := range specs {
 				kp := keys[rng.Intn(3)]
 				if round%5 == 4 && i == 0 {
@@ -319,9 +331,74 @@ func suiteC03(s *Suite, rng *Rng, tier string) {
 			}
 		}
 	}
+	// ---- two holders pool their secrets: CL signatures are malleable in the exponent of a base (A, e, v over s becomes
+	//      A*R_0^-t, e, v over s + t*e), so with s* = s1 mod e1, s* = s2 mod e2 both credentials 'contain' s*; only the size
+	//      bound on the response for the secret keeps such a pair from being accepted as linked ----
+	for it := 0; it < 3; it++ {
+		k1, k2 := keys[2], keys[2]
+		if it == 1 {
+			k2 = keys[0]
+		} else if it == 2 {
+			k1, k2 = keys[3], keys[3]
+		}
+		s1, s2 := newSecret(rng), newSecret(rng)
+		c1 := issueCredential(k1, s1, []*gbig.Int{rng.Bits(60), rng.Bits(60)}, rng)
+		c2 := issueCredential(k2, s2, []*gbig.Int{rng.Bits(60), rng.Bits(60)}, rng)
+		e1, e2 := c1.Signature.E, c2.Signature.E
+		inv := new(gbig.Int).ModInverse(e1, e2)
+		if inv == nil {
+			continue
+		}
+		kk := new(gbig.Int).Sub(s2, s1)
+		kk.Mul(kk, inv).Mod(kk, e2)
+		sStar := new(gbig.Int).Add(new(gbig.Int).Mul(kk, e1), s1)
+		malleate := func(cred *gabi.Credential) *gabi.Credential {
+			pk := cred.Pk
+			q := new(gbig.Int).Div(new(gbig.Int).Sub(sStar, cred.Attributes[0]), cred.Signature.E)
+			r0inv := new(gbig.Int).ModInverse(pk.R[0], pk.N)
+			shift := new(gbig.Int).Exp(r0inv, q, pk.N)
+			A := new(gbig.Int).Mul(cred.Signature.A, shift)
+			A.Mod(A, pk.N)
+			attrs := append([]*gbig.Int{sStar}, cred.Attributes[1:]...)
+			return &gabi.Credential{Pk: pk, Attributes: attrs, Signature: &gabi.CLSignature{A: A, E: cred.Signature.E, V: cred.Signature.V}}
+		}
+		m1, m2 := malleate(c1), malleate(c2)
+		b1, err1 := m1.CreateDisclosureProofBuilder([]int{1}, nil, false)
+		b2, err2 := m2.CreateDisclosureProofBuilder([]int{2}, nil, false)
+		if err1 != nil || err2 != nil {
+			continue
+		}
+		builders := gabi.ProofBuilderList{b1, b2}
+		ctx, nonce := rng.Bits(200), rng.Bits(80)
+		randomizers, err := gabi.NewProofRandomizers()
+		if err != nil {
+			panic(err)
+		}
+		c, err := builders.ChallengeWithRandomizers(ctx, nonce, randomizers, false)
+		if err != nil {
+			continue
+		}
+		pl, err := builders.BuildDistributedProofList(c, nil)
+		if err != nil {
+			continue
+		}
+		// the library's prover hashes exponents longer than Lm bits; the cheating provers answer with s* itself
+		resp := new(gbig.Int).Add(new(gbig.Int).Mul(c, sStar), randomizers["secretkey"])
+		for _, p := range pl {
+			p.(*gabi.ProofD).AResponses[0] = new(gbig.Int).Set(resp)
+		}
+		pks := []*gabikeys.PublicKey{k1.Pk, k2.Pk}
+		for _, labels := range [][]string{nil, {"ks", "ks"}} {
+			_, acc, _ := verifyCase(s, "pooled-secrets", false, pks, ctx, nonce, false, labels, cloneList(pl))
+			s.Nontrivial[fmt.Sprint("pooled", it, labels)] = true
+			if acc {
+				s.Violate("C03:pooled-secrets-linked", fmt.Sprintf("two credentials over different secrets (%d- and %d-bit keys) were accepted as sharing one secret after shifting both signatures to a common oversized exponent", k1.Bits, k2.Bits), L{it, len(labels)})
+			}
+		}
+	}
 	s.Notes["rule"] = "lists of 2..4 builders (disclosure/issuance) over toy and 1024-bit keys, 1..3 distinct secrets assigned at random, " +
 		"labellings nil / all-equal / set partitions; adversarial variants disclosing part of attribute 0 or adding a second response " +
-		"for base R_0; oracle: accepted iff same label => same secret; distinct by (round, labels, assignment)"
+		"for base R_0; pooled-secrets cheating provers (signatures shifted to a common oversized exponent by the Chinese remainder theorem); oracle: accepted iff same label => same secret; distinct by (round, labels, assignment)"
 }
 
 // diagnoseRejection re-does the steps of ProofList.Verify with the library's exported pieces to say which proof
